@@ -22,4 +22,6 @@ def generate_all():
     info["obligations"]["C11"] = gen_typestr.generate()
     import gen_bind
     info["obligations"]["C10"] = gen_bind.generate()
+    import gen_shmem
+    info["obligations"]["C19"] = gen_shmem.generate()
     return info
